@@ -279,7 +279,13 @@ def check(ax, case, rec):
         kw = {"apply_on": apply_on} if apply_on else {}
         ids = pts
         # the selection of points in the styles numpy indexing accepts: ids as array / list / from the end, or a boolean point mask
-        style = (c["lseed"] // 6 + len(X) + len(pts)) % 4
+        style = (c["lseed"] // 6 + len(X) + len(pts)) % 5
+        listed = ids
+        if style == 4 and not one_d:
+            # ids listed in descending order: row i of the values belongs to the i-th LISTED point
+            listed = ids[::-1].copy()
+            pts = listed
+            rec.label("points-listed-in-descending-order")
         if style == 1:
             pts = [int(p_) for p_ in ids]
         elif style == 2:
@@ -299,7 +305,7 @@ def check(ax, case, rec):
             it = fem.PointLoad(fc, points=pts, values=vgiven, axisymmetric=axi, **kw)
         r = np.asarray(it.assemble.vector(fc).toarray()).ravel()
         ref = np.zeros((len(X), d))
-        pts = ids
+        pts = listed
         ref[pts] = vals * (2 * np.pi * X[pts, 1:2] if axi else 1.0)
         off = int(sum(fc.fieldsizes[:apply_on]))
         n0 = ref.size
@@ -378,6 +384,9 @@ def check(ax, case, rec):
             rec.close("pressure-resultant=-p*sum(da)", float(np.abs(r.sum(0) - ref[: r.shape[1]]).max()) / (abs(p) * tot), 1e-10)
             if not c["mask"]:
                 rec.close("closed-surface-resultant=0", float(np.abs(r.sum(0)).max()) / (abs(p) * tot), 1e-10)
+        # the load switched off with the call (pressure=0.0 handed over after a non-zero level): nothing is assembled
+        r_off = np.asarray(it.assemble.vector(fc, pressure=0.0).toarray()).ravel()
+        rec.close("vector(pressure=0.0)=0-after-a-non-zero-level", float(np.abs(r_off).max()) / max(abs(p) * float(np.abs(da).sum()), 1e-300), 0.0)
         return
     if ax.startswith("mass"):
         if kind == "mixed":
